@@ -18,7 +18,7 @@ func MapKeys[K comparable, V any](m map[K]V) []K {
 	if len(keys) < 2 || !Active() {
 		return keys
 	}
-	s := cur
+	s := getCur()
 	ok := canonicalSort(keys, func(i int) reflect.Value { return reflect.ValueOf(keys[i]) },
 		func(i, j int) { keys[i], keys[j] = keys[j], keys[i] }, s)
 	if !ok {
@@ -42,7 +42,7 @@ func RangeSyncMap(m *sync.Map, f func(key, value interface{}) bool) {
 		all = append(all, kv{k, v})
 		return true
 	})
-	s := cur
+	s := getCur()
 	if len(all) >= 2 {
 		ok := canonicalSort(all, func(i int) reflect.Value { return reflect.ValueOf(all[i].k) },
 			func(i, j int) { all[i], all[j] = all[j], all[i] }, s)
